@@ -568,6 +568,21 @@ class FuncGen:
         form = self.r.randrange(4)
         ety = ty.elems[0]
         if form == 0 and g.p.comprehensions and ety == INT:
+            olds = self.vars_of(INT)
+            if olds and g.chance(0.4):
+                # the comprehension target shadows an existing variable: the outer variable keeps
+                # its value (and stays defined) after the comprehension, as in Python
+                k = g.pick(olds)
+                saved = self.env[k]
+                body = self.expr(INT, 1, only={k})
+                self.env[k] = saved
+                e = f"array({body} for {k} in range({ty.n}))"
+                self.kind("comprehension_shadowing")
+                self.lines.append(f"{ind}{v} = {e}")
+                self.define(v, ty)
+                if g.p.results_in_body:
+                    self.lines.append(f'{ind}result("{g.tag()}", {k})')
+                return True
             k = self.fresh(INT)
             self.env[k] = (INT, self.loop_depth)
             body = self.expr(INT, 1, only={k})
